@@ -322,6 +322,14 @@ func (w *World) Verify(c *Contract) (res *TargetResult) {
 	// vacuity: the preconditions admit an execution that returns
 	x.oblige("cover", "returns", allProps, retReach, fn, fn.Pos())
 	x.lastObl.Cover = true
+	// vacuity: every `atcall` clause speaks about a call that exists (`atcall-if-any`
+	// clauses guard calls that need not exist)
+	for _, cl := range c.AtCalls {
+		if !cl.Optional && x.atCallSeen[cl] == 0 {
+			x.oblige("atcall-site", fmt.Sprintf("%s.%d", cl.Callee, cl.N), cl.Props, "true", fn, fn.Pos())
+			x.lastObl.Detail = "no call of " + cl.Callee + " is checked by this clause: " + cl.Text
+		}
+	}
 	x.finalizeEpochs()
 	x.finish(res)
 	return res
